@@ -340,6 +340,15 @@ type c19Col struct {
 	// Obj: a plain long spelled in object form, {"type":"long"}, as other
 	// implementations write it when they attach attributes of their own
 	Obj bool `json:"obj,omitempty"`
+	// NullSecond: pointer shapes use the union [T, null] instead of [null, T]
+	NullSecond bool `json:"null_second,omitempty"`
+}
+
+func c19Nullable(base ref.Schema, nullSecond bool) ref.Schema {
+	if nullSecond {
+		return ref.Schema{Kind: "union", Branches: []ref.Schema{base, ref.Prim("null")}}
+	}
+	return ref.Nullable(base)
 }
 
 type c19MultiCase struct {
@@ -382,11 +391,15 @@ func runC19Multi(c c19MultiCase) (bool, error) {
 		elem := func(j int) ref.Datum {
 			d := ref.Datum{K: base.Kind, I: col.Stored[j]}
 			if col.Shape == "ptr" || col.Shape == "sliceptr" || col.Shape == "mapptr" {
+				nullIdx := 0
+				if col.NullSecond {
+					nullIdx = 1
+				}
 				if j < len(col.Nulls) && col.Nulls[j] {
-					return ref.Union(0, ref.Null())
+					return ref.Union(nullIdx, ref.Null())
 				}
 				viaNew++
-				return ref.Union(1, d)
+				return ref.Union(1-nullIdx, d)
 			}
 			return d
 		}
@@ -397,11 +410,11 @@ func runC19Multi(c c19MultiCase) (bool, error) {
 		case "plain":
 			fs, gt, d = base, tt, elem(0)
 		case "ptr":
-			fs, gt, d = ref.Nullable(base), reflect.PointerTo(tt), elem(0)
+			fs, gt, d = c19Nullable(base, col.NullSecond), reflect.PointerTo(tt), elem(0)
 		case "slice", "sliceptr":
 			it, et := base, tt
 			if col.Shape == "sliceptr" {
-				it, et = ref.Nullable(base), reflect.PointerTo(tt)
+				it, et = c19Nullable(base, col.NullSecond), reflect.PointerTo(tt)
 			}
 			fs, gt = ref.Schema{Kind: "array", Items: &it}, reflect.SliceOf(et)
 			d = ref.Datum{K: "array"}
@@ -411,7 +424,7 @@ func runC19Multi(c c19MultiCase) (bool, error) {
 		default:
 			it, et := base, tt
 			if col.Shape == "mapptr" {
-				it, et = ref.Nullable(base), reflect.PointerTo(tt)
+				it, et = c19Nullable(base, col.NullSecond), reflect.PointerTo(tt)
 			}
 			fs, gt = ref.Schema{Kind: "map", Values: &it}, reflect.MapOf(reflect.TypeOf(""), et)
 			d = ref.Datum{K: "map"}
@@ -451,7 +464,7 @@ func runC19Multi(c c19MultiCase) (bool, error) {
 	}
 	check := func(base ref.Schema, want ref.Datum, got reflect.Value, path string) error {
 		if want.K == "union" {
-			if want.Branch == 0 {
+			if want.U.K == "null" {
 				if !got.IsNil() {
 					return fmt.Errorf("%s: null decoded to a non-nil pointer", path)
 				}
@@ -568,6 +581,7 @@ func drawC19Multi(t *rapid.T) c19MultiCase {
 	for i := 0; i < n; i++ {
 		col := c19Col{Logical: c19Logicals[gen.Uniform(t, "logical", 4)], Shape: c19Shapes[gen.Uniform(t, "shape", 6)]}
 		col.Obj = col.Logical == "long" && rapid.Bool().Draw(t, "objectForm")
+		col.NullSecond = gen.Uniform(t, "nullSecond", 3) == 0
 		m := 1
 		if col.Shape != "plain" && col.Shape != "ptr" {
 			m = gen.UniformRange(t, "nelems", 0, 6)
